@@ -16,11 +16,11 @@ CLAIMED = {
    note="Trusted: the harness writer + strict reader. Torn final appends, hybrid files and generation-rule violations are outside the statement."),
  "C09": dict(level="exploration", design="DESIGN.md §4.3",
    technique="deterministic simulation of a store (put/read/sync/restart) with injected save failures and refusing sinks; step-by-step refinement against a map model, durability and prefix checks after every successful save",
-   text="Seeded operation histories over {create, update of base objects (direct and compressed), of earlier references and of numbers the document does not define, typed page writes, typed stream copies that keep the source's filters, promise, fulfil, read, save, failing save (unfulfilled promise, stream still in the source file, /dev/full, missing directory), dirty restart} on corpus and generated base files (classic/stream xref, object streams, junk before the header, multi-revision histories with freed and reused numbers, a document that was never saved, caches on/off), always closed by replace-offender + fulfil + save + reload. After every step: read-your-writes through raw and typed paths; after every successful save: previous bytes are a prefix, every written reference (passed and handed) resolves to the model's value in a fresh reload, sampled untouched objects and stream data unchanged. Fault-free and fault batches counted separately. Sampling, not proof.",
+   text="Seeded operation histories over {create, update of base objects (direct and compressed), of earlier references and of numbers the document does not define, typed page writes, typed stream copies that keep the source's filters, promise, fulfil, read, save, failing save (unfulfilled promise, stream still in the source file, /dev/full, missing directory), dirty restart} on corpus and generated base files (classic/stream xref, object streams, junk before the header, multi-revision histories with freed and reused numbers, a document that was never saved, caches on/off), always closed by replace-offender + fulfil + save + reload. After every step: read-your-writes through raw and typed paths; after every successful save: previous bytes are a prefix, every written reference (passed and handed) resolves to the model's value in a fresh reload, sampled untouched objects and stream data unchanged, the document information (incl. dates in every time-zone form) as before. Fault-free and fault batches counted separately. Sampling, not proof.",
    note="Update targets exclude objects the document needs to open; integers and reals of equal numeric value are identified when compared; file system is real apart from the refusing sinks."),
  "C12": dict(level="exploration", design="DESIGN.md §4.2",
    technique="deterministic simulation of call histories with cache-eviction fault injection; refinement check of the cached document against the uncached single-call reference model",
-   text="Histories of read calls (typed loads incl. wrong types, raw resolves, stream data, raw and decoded image data, page look-ups, lazy loads; resolver reuse/renewal; set_options switches) on a document (generated families incl. cyclic, deep and dangling-reference documents, corpus) with real SyncCache caches in three cache modes, with eviction faults between and inside calls; each call's answer must equal the answer of that call alone on a fresh uncached document. Complete enumeration of ordered pairs (quick) / triples (thorough) of call kinds per sampled object, plus seeded random histories; fault-free and fault batches counted separately.",
+   text="Histories of read calls (typed loads incl. wrong types, raw resolves, stream data, raw and decoded image data, page look-ups, lazy loads; resolver reuse/renewal; set_options switches, as a whole or of a single option on documents with unclosed objects) on a document (generated families incl. cyclic, deep and dangling-reference documents, corpus) with real SyncCache caches in three cache modes, with eviction faults between and inside calls; each call's answer must equal the answer of that call alone on a fresh uncached document. Complete enumeration of ordered pairs (quick) / triples (thorough) of call kinds per sampled object, plus seeded random histories; fault-free and fault batches counted separately.",
    note="Reference model is the library's own uncached behaviour; digests via canonicalised Debug renderings; objects of large corpus files are sampled."),
  "C13": dict(level="exploration", design="DESIGN.md §4.1",
    technique="deterministic simulation: seeded baton scheduler over real OS threads at the Cache/Log seams + eviction fault injection; linearizability-style check of every answer against the sequential (alone) answer; second engine: the same scenarios under Miri's seeded scheduler (no stubs)",
